@@ -8,7 +8,7 @@ from . import engine as E
 from .engine import SInt, SBytes, SBool
 
 REPO = os.environ.get('VERIF_REPO', '/repo')
-OPTIONS = {'sets': False, 'set_modules': ('androguard.decompiler.',)}
+OPTIONS = {'sets': False, 'set_modules': ('androguard.decompiler.',), 'symkey_modules': ()}
 FILES_LOADED = []
 
 
@@ -34,6 +34,9 @@ class Rewrite(ast.NodeTransformer):
     def visit_Call(self, node):
         self.generic_visit(node)
         f = node.func
+        if self._symkeys_on() and isinstance(f, ast.Attribute) and f.attr == 'get' and 1 <= len(node.args) <= 2 and not node.keywords \
+                and not any(isinstance(a, ast.Starred) for a in node.args):
+            return ast.copy_location(ast.Call(ast.Name('sx__dictget', ast.Load()), [f.value] + node.args, []), node)
         if isinstance(f, ast.Attribute) and isinstance(f.value, ast.Constant) and f.attr == 'format' and \
                 isinstance(f.value.value, str) and not any(isinstance(a, ast.Starred) for a in node.args) and \
                 all(k.arg is not None for k in node.keywords):
@@ -49,6 +52,43 @@ class Rewrite(ast.NodeTransformer):
                     not any(isinstance(a, ast.Starred) for a in node.args):
                 return ast.copy_location(
                     ast.Call(ast.Name('sx__format', ast.Load()), [f.value] + node.args, []), node)
+        return node
+
+    # ---- dictionaries indexed with symbolic keys (only in the modules a check asks for): d[k], d[k] = v, d.get(k)
+    def _symkeys_on(self):
+        return bool(OPTIONS['symkey_modules']) and self.mod.startswith(tuple(OPTIONS['symkey_modules']))
+
+    @staticmethod
+    def _plain_index(sl):
+        return not isinstance(sl, ast.Slice) and not (isinstance(sl, ast.Tuple) and any(isinstance(e, ast.Slice) for e in sl.elts))
+
+    def visit_Subscript(self, node):
+        self.generic_visit(node)
+        if self._symkeys_on() and isinstance(node.ctx, ast.Load) and self._plain_index(node.slice):
+            return ast.copy_location(ast.Call(ast.Name('sx__getitem', ast.Load()), [node.value, node.slice], []), node)
+        return node
+
+    def visit_Assign(self, node):
+        self.generic_visit(node)
+        if self._symkeys_on() and any(isinstance(t, ast.Subscript) and self._plain_index(t.slice) for t in node.targets):
+            tmp = '__sx_tmp_%d' % node.lineno
+            out = [ast.Assign([ast.Name(tmp, ast.Store())], node.value)]
+            for t in node.targets:
+                if isinstance(t, ast.Subscript) and self._plain_index(t.slice):
+                    out.append(ast.Expr(ast.Call(ast.Name('sx__setitem', ast.Load()), [t.value, t.slice, ast.Name(tmp, ast.Load())], [])))
+                else:
+                    out.append(ast.Assign([t], ast.Name(tmp, ast.Load())))
+            return [ast.copy_location(x, node) for x in out]
+        return node
+
+    def visit_AugAssign(self, node):
+        self.generic_visit(node)
+        t = node.target
+        if self._symkeys_on() and isinstance(t, ast.Subscript) and self._plain_index(t.slice) and \
+                isinstance(t.value, (ast.Name, ast.Attribute)) and isinstance(t.slice, (ast.Name, ast.Constant, ast.Attribute)):
+            cur = ast.Call(ast.Name('sx__getitem', ast.Load()), [t.value, t.slice], [])
+            return ast.copy_location(ast.Expr(ast.Call(ast.Name('sx__setitem', ast.Load()),
+                                                       [t.value, t.slice, ast.BinOp(cur, node.op, node.value)], [])), node)
         return node
 
     def visit_While(self, node):
@@ -143,6 +183,90 @@ def sx_loop(loop_id):
         LOOP_HOOK[0](loop_id)
 
 
+# ---- symbolic-key dictionary overlay: entries whose key is symbolic live in a side table per dict, compared with ==
+# (which forks), and are dropped at the start of every explored path (E.PATH_START)
+SIDE = {}
+
+
+def _symkey(k):
+    if isinstance(k, tuple):
+        return any(_symkey(x) for x in k)
+    if isinstance(k, SInt):
+        import z3
+        return not z3.is_bv_value(z3.simplify(k.e))
+    return _sym(k)
+
+
+def _side(d):
+    ent = SIDE.get(id(d))
+    if ent is None:
+        ent = SIDE[id(d)] = (d, [])
+    return ent[1]
+
+
+def _lookup(d, k):
+    """(found, value): side entries first, then the concrete keys of the dict itself"""
+    for kk, v in _side(d):
+        if kk == k:
+            return True, v
+    for kk in list(d.keys()):
+        try:
+            same = kk == k
+        except TypeError:
+            same = False
+        if same:
+            return True, dict.__getitem__(d, kk)
+    return False, None
+
+
+def sx_getitem(d, k):
+    if type(d) is dict and _symkey(k):
+        ok, v = _lookup(d, k)
+        if not ok:
+            raise KeyError(k)
+        return v
+    if type(d) is dict and id(d) in SIDE and SIDE[id(d)][1]:
+        for kk, v in SIDE[id(d)][1]:
+            if kk == k:
+                return v
+    return d[k]
+
+
+def sx_setitem(d, k, v):
+    if type(d) is dict and (_symkey(k) or (id(d) in SIDE and SIDE[id(d)][1])):
+        side = _side(d)
+        for i, (kk, _) in enumerate(side):
+            if kk == k:
+                side[i] = (kk, v)
+                return
+        if not _symkey(k):
+            d[k] = v
+            return
+        for kk in list(d.keys()):
+            if kk == k:
+                d[kk] = v
+                return
+        side.append((k, v))
+        return
+    d[k] = v
+
+
+def sx_dictget(d, k, default=None):
+    if type(d) is dict and (_symkey(k) or (id(d) in SIDE and SIDE[id(d)][1])):
+        ok, v = _lookup(d, k)
+        return v if ok else default
+    return d.get(k, default)
+
+
+def sx_in_dict(k, d):
+    ok, _ = _lookup(d, k)
+    return ok
+
+
+def _reset_side():
+    SIDE.clear()
+
+
 SET_FACTORY = [set]
 
 
@@ -153,17 +277,23 @@ def sx_set(items=()):
 _installed = [False]
 
 
-def install(sets=False):
+def install(sets=False, symkeys=()):
     if _installed[0]:
         return
     _installed[0] = True
     OPTIONS['sets'] = sets
+    OPTIONS['symkey_modules'] = tuple(symkeys)
     builtins.sx__loop = sx_loop
     builtins.sx__in = E.sx_in
     builtins.sx__mod = sx_mod
     builtins.sx__join = sx_join
     builtins.sx__format = sx_format
     builtins.sx__set = sx_set
+    builtins.sx__getitem = sx_getitem
+    builtins.sx__setitem = sx_setitem
+    builtins.sx__dictget = sx_dictget
+    if _reset_side not in E.PATH_START:
+        E.PATH_START.append(_reset_side)
     sys.dont_write_bytecode = True
     if REPO not in sys.path:
         sys.path.insert(0, REPO)
